@@ -25,9 +25,12 @@ RULE = (
     "ensemble, pipeline, stacking, multiplexer, tuner, depth-2 nestings); for each program x "
     "horizon (non-empty subsets of {1..4}, <=2 steps quick / <=3 thorough) x horizon passing "
     "mode (fit / predict; relative list, array, ForecastingHorizon, absolute ForecastingHorizon, "
-    "relative / absolute pandas Index given in scrambled order) "
+    "relative / absolute pandas Index given in scrambled order; alt_equal: relative steps at fit, "
+    "then alternately absolute and relative requests whose NUMBERS equal those of the previous "
+    "request of the other kind, on a series ending at -1) "
     "the complete tree of call histories over {predict, update(size in {1,3} (thorough 1..3), "
-    "update_params in {T,F})} up to depth 3 after fit is executed on a fresh object, and again "
+    "update_params in {T,F})} up to depth 3 (mode shared: depth 2, two composites constructed from "
+    "the same member objects driven in lock-step on the series and its shifted copy) after fit is executed on a fresh object, and again "
     "on a twin whose labels are shifted by +7. state = (cutoff, memory, params epoch) fingerprint; "
     "transitions = executed calls. Index kind (RangeIndex/Index, start 0/5) and n in {12,15} "
     "rotate with case index + seed (thorough: crossed)."
@@ -40,7 +43,8 @@ ASSUMPTIONS = [
 ]
 
 FHMODES = ["fit_rel_list", "pred_rel_list", "pred_rel_array", "pred_rel_fh", "pred_abs_fh",
-           "fit_rel_fh", "pred_rel_uindex", "pred_abs_ufh", "fit_rel_uindex", "fit_abs_far"]
+           "fit_rel_fh", "pred_rel_uindex", "pred_abs_ufh", "fit_rel_uindex", "fit_abs_far",
+           "alt_equal"]
 IDX = [("range", 0), ("range", 5), ("index", 0), ("index", 5)]
 
 
@@ -57,7 +61,8 @@ def gen_cases(tier, seed):
             if slow and tier == "quick" and fh not in ([1], [2, 4], [1, 2]):
                 continue
             for mode in FHMODES:
-                if fmenu.needs_fh_at_fit(spec) and not mode.startswith("fit"):
+                if fmenu.needs_fh_at_fit(spec) and not mode.startswith("fit") \
+                        and mode != "alt_equal":
                     continue
                 if mode == "fit_abs_far" and (fmenu.needs_fh_at_fit(spec) or slow):
                     continue  # horizon-dependent reductions train on the steps of the fit cutoff
@@ -69,8 +74,80 @@ def gen_cases(tier, seed):
                     i += 1
                     n = (12, 15)[(i + seed) % 2]
                     deep = spec in fmenu.BASIC or tier != "quick"
+                    if mode == "alt_equal":
+                        ik = (ik[0], "neg")  # training index ends at -1
                     yield dict(spec=spec, fh=fh, mode=mode, idx=list(ik), n=n,
                                depth=(3 if deep and not slow else 2), fam=seed % 2)
+
+
+    # two composites constructed from the same member objects, driven in lock-step on a series
+    # and on its +7 shifted copy
+    for spec in _specs(tier):
+        if spec[0] in ("naive", "poly"):
+            continue
+        for fh in ([1], [2, 4]):
+            i += 1
+            yield dict(spec=spec, fh=fh, mode="shared", idx=list(IDX[(i + seed) % 4]),
+                       n=(12, 15)[(i + seed) % 2], depth=2, fam=seed % 2)
+
+
+def _run_shared(case, res, tag):
+    spec, steps = case["spec"], case["fh"]
+    kind, start = case["idx"]
+    n0 = case["n"]
+    y = _series(n0 + 10, case["fam"], kind, start)
+    y7 = pd.Series(y.values, index=y.index + 7 if kind == "index"
+                   else pd.RangeIndex(start + 7, start + 7 + len(y)))
+    needs = fmenu.needs_fh_at_fit(spec)
+    for hist in _histories(2, (1, 3)):
+        res.evals += 1
+        A = fmenu.build(spec)
+        B = type(A)(**A.get_params(deep=False))
+        objs = ((A, y, 0), (B, y7, 7))
+        for f, ys, _ in objs:
+            o = call(lambda: f.fit(ys.iloc[:n0].copy(), fh=list(steps) if needs else None))
+            res.transitions += 1
+            if not o.ok:
+                res.violate("%s:shared:fit:raises" % tag, "fit raised", observed=o.brief())
+                return
+        pos = n0
+        for op in hist:
+            got = []
+            for f, ys, sh in objs:
+                res.transitions += 1
+                if op[0] == "U":
+                    o = call(lambda: f.update(ys.iloc[pos:pos + op[1]].copy(), update_params=op[2]))
+                    exp = int(ys.index[pos + op[1] - 1])
+                    if o.ok and int(f.cutoff) != exp:
+                        res.violate("%s:shared:cutoff" % tag, "cutoff after update is not the "
+                                    "last label of the data passed to update (second composite "
+                                    "built from the same member objects in use)", expected=exp,
+                                    observed=dict(cutoff=int(f.cutoff), history=[list(h) for h in hist]))
+                        return
+                else:
+                    o = call(lambda: f.predict(None if needs else list(steps)))
+                    if o.ok:
+                        c = int(ys.index[pos - 1])
+                        idx = [int(v) for v in o.value.index]
+                        if idx != [c + s_ for s_ in steps]:
+                            res.violate("%s:shared:index" % tag, "forecast index != cutoff + steps "
+                                        "when a second composite built from the same member "
+                                        "objects was fitted on a shifted series",
+                                        expected=[c + s_ for s_ in steps],
+                                        observed=dict(index=idx, history=[list(h) for h in hist]))
+                            return
+                        got.append([float(v) for v in o.value.values])
+                if not o.ok:
+                    res.violate("%s:shared:raises" % tag, "call raised", observed=o.brief())
+                    return
+            if op[0] == "U":
+                pos += op[1]
+            elif not close(got[0], got[1], rtol=1e-7, atol=1e-9):
+                res.violate("%s:shared:shift" % tag, "forecast values of the shifted twin differ",
+                            expected=got[0], observed=dict(values=got[1],
+                                                           history=[list(h) for h in hist]))
+                return
+            res.states += 1
 
 
 def _series(n_total, fam, kind, start):
@@ -117,7 +194,7 @@ def _histories(depth, sizes):
 FAR = 7  # offset of the absolute horizon given at fit: still out-of-sample after two updates of 3
 
 
-def _run(spec, y_full, n0, steps, mode, hist, res, tag):
+def _run(spec, y_full, n0, steps, mode, hist, res, tag, shift=0):
     """execute one history on a fresh object; returns list of observations or None"""
     from sktime.forecasting.base import ForecastingHorizon
 
@@ -126,6 +203,14 @@ def _run(spec, y_full, n0, steps, mode, hist, res, tag):
     at_fit = mode.startswith("fit")
     fhv = _mk_fh(steps, mode, y0.index[-1]) if at_fit else None
     abs_labels = None
+    alt = mode == "alt_equal"
+    needs = fmenu.needs_fh_at_fit(spec)
+    if alt:
+        # horizons of different kind but equal numbers, one after the other: relative `steps` at
+        # fit, then alternately an absolute horizon whose time points are the numbers of the
+        # previous (relative) request and a relative one whose steps are the numbers of the
+        # previous absolute request (numbers in the coordinates of the unshifted series)
+        fhv, prev, npred = list(steps), list(steps), 0
     if mode == "fit_abs_far":
         # absolute time points requested once, at fit; they must label every later forecast
         abs_labels = [int(y0.index[-1]) + FAR + s for s in steps]
@@ -167,18 +252,50 @@ def _run(spec, y_full, n0, steps, mode, hist, res, tag):
             obs.append(("U", int(f.cutoff)))
         else:
             fhp = None if at_fit else _mk_fh(steps, mode, last_label)
+            rel = list(steps)
+            if alt:
+                cb = int(last_label) - shift
+                if needs:
+                    # a horizon-dependent forecaster asked for the absolute time points `steps`:
+                    # the same horizon only if the cutoff is 0, otherwise it has to refuse
+                    rel = [s_ - cb for s_ in steps]
+                    fhp = ForecastingHorizon(np.array([s_ + shift for s_ in steps]),
+                                             is_relative=False)
+                elif npred % 2 == 0:
+                    rel = [p_ - cb for p_ in prev]
+                    if min(rel) < 1:
+                        rel = list(steps)
+                    prev = [cb + r_ for r_ in rel]
+                    fhp = ForecastingHorizon(np.array([int(last_label) + r_ for r_ in rel]),
+                                             is_relative=False)
+                else:
+                    rel = list(prev) if min(prev) >= 1 else list(steps)
+                    prev = list(rel)
+                    fhp = list(rel)
+                npred += 1
             o = call(lambda: f.predict(fhp))
+            if alt and needs and rel != list(steps):
+                if o.ok:
+                    res.violate("%s:predict:other-horizon" % tag, "a forecaster fitted for "
+                                "relative steps answers a request for absolute time points that "
+                                "are other steps (labels are not the requested time points)",
+                                expected="error, or labels %s" % [s_ + shift for s_ in steps],
+                                observed=[int(v) for v in o.value.index])
+                    return None
+                obs.append(("R",))
+                res.states += 1
+                continue
             if not o.ok:
                 res.violate("%s:predict:raises" % tag, "predict raised", observed=o.brief())
                 return None
             p = o.value
-            exp_idx = [int(last_label) + s for s in steps] if abs_labels is None else abs_labels
+            exp_idx = [int(last_label) + s for s in rel] if abs_labels is None else abs_labels
             if not isinstance(p, pd.Series) or [int(v) for v in p.index] != exp_idx:
                 res.violate("%s:index" % tag, "forecast index != cutoff + requested steps",
                             expected=exp_idx, observed=list(getattr(p, "index", [])))
                 return None
             vals = np.asarray(p.values, dtype=float)
-            if len(vals) != len(steps) or not np.all(np.isfinite(vals)):
+            if len(vals) != len(rel) or not np.all(np.isfinite(vals)):
                 res.violate("%s:values" % tag, "forecast not finite / wrong length",
                             observed=list(vals))
                 return None
@@ -194,6 +311,14 @@ def run_case(case):
     n0 = case["n"]
     tag = spec[0] if spec[0] not in ("red", "naive") else "%s-%s" % (spec[0], spec[1])
     sizes = (1, 3)
+    if mode == "shared":
+        res.evals = 0
+        _run_shared(case, res, tag)
+        res.nt((str(spec), tuple(steps), mode))
+        res.outcome("%s:%s" % (tag, mode))
+        return res
+    if start == "neg":
+        start = -n0
     y = _series(n0 + 10, case["fam"], kind, start)
     y7 = pd.Series(y.values, index=y.index + 7 if kind == "index"
                    else pd.RangeIndex(start + 7, start + 7 + len(y)))
@@ -203,7 +328,7 @@ def run_case(case):
         a = _run(spec, y, n0, steps, mode, hist, res, tag)
         if a is None:
             break
-        b = _run(spec, y7, n0, steps, mode, hist, res, tag + ":twin")
+        b = _run(spec, y7, n0, steps, mode, hist, res, tag + ":twin", shift=7)
         if b is None:
             break
         for oa, ob in zip(a, b):
@@ -212,13 +337,13 @@ def run_case(case):
                     # the twin's absolute labels are shifted with its index; values may differ in
                     # nothing (same steps from the same relative cutoff)
                     pass
-                if [i + 7 for i in oa[1]] != ob[1] or not close(oa[2], ob[2], rtol=1e-7, atol=1e-9):
+                if ob[0] != "P" or [i + 7 for i in oa[1]] != ob[1] or not close(oa[2], ob[2], rtol=1e-7, atol=1e-9):
                     res.violate("%s:shift" % tag, "shifting the time index by +7 changes the "
                                 "forecast values or does not shift the forecast index by 7",
                                 expected=dict(index=[i + 7 for i in oa[1]], values=oa[2]),
                                 observed=dict(index=ob[1], values=ob[2], history=[list(h) for h in hist]))
                     break
-            elif oa[1] + 7 != ob[1]:
+            elif oa[0] == "U" and oa[1] + 7 != ob[1]:
                 res.violate("%s:shift:cutoff" % tag, "cutoff of the shifted twin is not shifted",
                             expected=oa[1] + 7, observed=ob[1])
         if res.violations:
